@@ -451,7 +451,7 @@ def run_impl(ctx, cases, kernels=None, shards=8):
     if kernels is not None:
         payloads[0]["kernels"] = [[hexf(a), hexf(b)] for a, b in kernels]
     with ThreadPoolExecutor(max_workers=shards) as ex:
-        res = list(ex.map(lambda p: ctx.impl("c07", p), payloads))
+        res = list(ex.map(lambda p: ctx.impl("c07", p, timeout=2400), payloads))
     outs = [None] * len(cases)
     for s, rr in enumerate(res):
         for j, o in enumerate(rr["cases"]):
